@@ -508,13 +508,16 @@ func properties() map[string]*propDef {
 					for entry := 0; entry < 2; entry++ {
 						for target := 0; target < 3; target++ {
 							out = append(out, item{Harness: "H_C12", Cfg: []int{op, router, entry, target}, Label: "mutator (Add, Remove, Route, RemoveRoute), router, entry (Dispatch/ServeHTTP), request to the changed service / another service / OPTIONS request through OPTIONSFilter"})
+							if tier == "thorough" {
+								out = append(out, item{Harness: "H_C12", Cfg: []int{op, router + 10, entry, target}, Label: "the same with a third thread performing a second change of another kind"})
+							}
 						}
 					}
 				}
 			}
 			return out
 		},
-		Bounds: map[string]interface{}{"threads": "2: one request (concrete URL), one mutator operation", "services": 2, "routes_per_service": 2},
+		Bounds: map[string]interface{}{"threads": "2: one request (concrete URL), one mutator operation; thorough adds a third thread with a second mutator", "services": 2, "routes_per_service": 2},
 		Assumptions: append([]string{"event-order encoding over 8-bit timestamps: program order, RWMutex sections (writers exclusive, readers shared, a pending writer blocks new readers), adjacency of conflicting accesses = data race",
 			"each thread is executed alone from the state before the mutation (its own control flow does not see the other thread's writes); 'answered according to a state that existed during the request' is therefore only checked as race-freedom plus lock structure, not as a value-level linearizability claim",
 			"the Go memory model is not modelled: race-free programs are assumed sequentially consistent", "ServeMux internals are a stub (the real ServeMux has its own mutex)",
